@@ -258,6 +258,14 @@ impl<G: AffineRepr> Shared<G> {
             self.tape.push(v);
             v
         } else {
+            if self.pos >= self.tape.len() {
+                // the replaying role asks for more values than the recording role drew: the two roles are not
+                // executing the same program (a structural failure, reported and replayed like any other)
+                if !self.errors.iter().any(|e| e.starts_with("roles out of step")) {
+                    self.errors.push(format!("roles out of step: the replaying role asks for value #{} of kind {:?}, the recording role drew {}", self.pos, kind, self.tape.len()));
+                }
+                return FOf::<G>::zero();
+            }
             let mut v = self.tape[self.pos];
             self.pos += 1;
             // statement deviation on the replaying (verifier) side: the k-th draw of a kind is shifted
